@@ -103,3 +103,13 @@ Print Assumptions model_meets_spec.
 Example model_meets_spec_nonvacuous :
   forall r w tr, run_actions ex_acts w_reset [] = (r, w, tr) -> logs_of tr = [].
 Proof. intros r w tr H. apply run_actions_no_logs in H. exact H. Qed.
+
+(* a bare flush starts the response with 200: a later WriteHeader(500) is superfluous and the
+   record says 200 / INFO — what the client received *)
+Example flush_then_superfluous_header :
+  logs_of (snd (logger ex_env (run_actions [AFlush FFlushError; AWriteHeader 500; AWrite 5]) w_reset [])) =
+  [R LevelInfo (S2B "192.0.2.1")
+     [(S2B "status", VInt 200); (S2B "method", VStr (S2B "GET")); (S2B "host", VStr (S2B "a.b"));
+      (S2B "path", VStr (S2B "/x")); (S2B "latency", VDur)]]
+  /\ w_status (snd (fst (run_actions [AFlush FNone; AWriteHeader 500] w_reset []))) = 500.
+Proof. split; reflexivity. Qed.
